@@ -219,6 +219,33 @@ def run(tier, seed):
                 executed += 1
                 if src == "path" and fa == "none" and not row["name"]["table"]:
                     files_for_wds.append((name, open(name, "rb").read(), stored, key))
+        # NIST SPHERE files longer than the reader's 16 KiB reads, with the shorten marker's bytes as ordinary samples
+        # at the read boundaries (the marker only means something at the start of the data section)
+        for (shape, order) in (((20000,), "01"), ((9000, 2), "10"), ((17000,), "10"), ((6000, 3), "01")):
+            x = nprng.randint(-3000, 3000, size=shape).astype(np.int16)
+            flat = x.reshape(-1)
+            fsz = 2 * (1 if len(shape) == 1 else shape[1])
+            for bs in {16384, (16384 // fsz) * fsz}:
+                for off in range(bs, flat.size * 2 - 3, bs):
+                    if off % 2 == 0:
+                        flat[off // 2: off // 2 + 2] = np.frombuffer(b"ajkg", dtype="<i2" if order == "01" else ">i2")
+            blob = sph_util.pcm_file(x, order)
+            with open("long.sph", "wb") as f:
+                f.write(blob)
+            for src in ("path", "stream"):
+                run.evaluations += 1
+                try:
+                    with warnings.catch_warnings():
+                        warnings.simplefilter("ignore")
+                        got = util.read_signal("long.sph") if src == "path" else util.read_signal(io.BytesIO(blob), force_as="sph")
+                except Exception as e:
+                    run.violation({"kind": "read_signal_raised", "reader": "sph", "shape": list(shape), "src": src, "byte_order": order,
+                                   "what": "marker bytes as samples at a read boundary", "error": repr(e)})
+                    continue
+                if not same(got, x):
+                    run.violation({"kind": "read_back_differs_from_stored", "reader": "sph", "shape": list(shape), "src": src, "byte_order": order,
+                                   "what": "marker bytes as samples at a read boundary"})
+            files_for_wds.append(("long.sph", blob, x, None))
         # the table has no memory: after all the calls above (including every refused one) the
         # IOError / ValueError rows must still come out the same
         for row in rows:
